@@ -489,28 +489,40 @@ def r4(ctx):
 # --------------------------------------------------------------------------- R5
 
 
-def _mentions_input_ports(p, f, e, depth=2, _seen=None) -> bool:
-    """`e` evaluates the step's input ports: `self.input_ports`, a call of `get_input_ports`, a call of a Step method whose
-    return values do, or a local bound to such an expression (whatever the local is called)."""
+def _is_ports_value(p, f, e, depth=2, _seen=None) -> bool:
+    """`e` *is* (a selection of) the step's input ports: `self.input_ports`, `get_input_ports()`, a Step method returning
+    such a value, `.items()/.keys()/.values()`, `dict(..)`, a comprehension over one, or a local bound to one (whatever
+    the local is called).  `not e` and `(x := e)` are looked through."""
     _seen = set() if _seen is None else _seen
-    for x in ast.walk(e):
-        if isinstance(x, ast.Attribute) and x.attr == "input_ports":
-            return True
-        if isinstance(x, ast.Call):
-            for r in p.resolve_call(f, x):
-                k = p.functions.get(r)
-                if r.rpartition(".")[2] == "get_input_ports":
-                    return True
-                if k is not None and depth and k.cls is not None and p.is_subclass(k.cls.qualname, STEP_BASE) and r not in _seen:
-                    _seen.add(r)
-                    rets = [n.value for n in k.body_nodes() if isinstance(n, ast.Return) and n.value is not None]
-                    if rets and all(_mentions_input_ports(p, k, v, depth - 1, _seen) for v in rets):
-                        return True
-        if isinstance(x, ast.Name) and isinstance(x.ctx, ast.Load) and (f.qualname, x.id) not in _seen:
-            _seen.add((f.qualname, x.id))
-            ds = [d for d in defs_of(f, x.id) if d.kind in ("assign", "walrus") and d.index is None and d.value is not None]
-            if ds and len(ds) == len(defs_of(f, x.id)) and all(_mentions_input_ports(p, f, d.value, depth, _seen) for d in ds):
+    e = strip_await(e)
+    while isinstance(e, (ast.NamedExpr, ast.UnaryOp)):
+        if isinstance(e, ast.UnaryOp) and not isinstance(e.op, ast.Not):
+            return False
+        e = strip_await(e.value if isinstance(e, ast.NamedExpr) else e.operand)
+    if isinstance(e, ast.Attribute):
+        return e.attr == "input_ports"
+    if isinstance(e, (ast.DictComp, ast.ListComp, ast.SetComp, ast.GeneratorExp)):
+        return _is_ports_value(p, f, e.generators[0].iter, depth, _seen)
+    if isinstance(e, ast.Call):
+        if isinstance(e.func, ast.Attribute) and e.func.attr in ("items", "keys", "values", "copy") and not e.args:
+            return _is_ports_value(p, f, e.func.value, depth, _seen)
+        if isinstance(e.func, ast.Name) and e.func.id in ("dict", "list", "tuple", "set") and len(e.args) == 1:
+            return _is_ports_value(p, f, e.args[0], depth, _seen)
+        for r in p.resolve_call(f, e):
+            if r.rpartition(".")[2] == "get_input_ports":
                 return True
+            k = p.functions.get(r)
+            if k is not None and depth and k.cls is not None and p.is_subclass(k.cls.qualname, STEP_BASE) and r not in _seen:
+                _seen.add(r)
+                rets = [n.value for n in k.body_nodes() if isinstance(n, ast.Return) and n.value is not None]
+                if rets and all(_is_ports_value(p, k, v, depth - 1, _seen) for v in rets):
+                    return True
+        return False
+    if isinstance(e, ast.Name) and (f.qualname, e.id) not in _seen:
+        _seen.add((f.qualname, e.id))
+        ds = defs_of(f, e.id)
+        return bool(ds) and all(d.kind in ("assign", "walrus") and d.index is None and d.value is not None
+                                and _is_ports_value(p, f, d.value, depth, _seen) for d in ds)
     return False
 
 
@@ -544,7 +556,7 @@ def r5(ctx):
             cid = g.node_containing(call)
             tests = [
                 t for t in g.nodes.values()
-                if t.kind == "test" and _mentions_input_ports(p, f, t.ast)
+                if t.kind == "test" and _is_ports_value(p, f, t.ast)
                 and not any(isinstance(x, ast.Call) and isinstance(x.func, ast.Name) and x.func.id == "len" for x in ast.walk(t.ast))
             ]
             ok = bool(cid) and any(all(only_via(g, t.id, "f", i) for i in cid) for t in tests)
@@ -651,8 +663,9 @@ def r6(ctx):
             pid = g.node_containing(n)
             ctx.require(bool(pid), f"C07.R6: {f.qualname}: `{unparse(st)[:80]}` not found in the CFG")
             stale = []
+            outside = g.reach([g.entry], avoid=pid, include_src=True)  # nodes reachable without evaluating the pop
             for node in g.nodes.values():
-                if node.id in pid or not g.dominates(pid, node.id):
+                if node.id in pid or node.id in outside or not node.calls():
                     continue
                 for c, args in _processing_args(p, f, node, classes):
                     for a in args:
@@ -735,13 +748,11 @@ def r7(ctx):
     p = ctx.prog
     classes = _step_classes(p)
     fields = _recorded_fields(p, classes)
-    ctx.require(any(a == "size_map" for _, a in fields), f"C07.R7: GatherStep.size_map is no longer recorded as an input ({sorted(fields)})")
-    total = 0
     for (cq, field), consumers in sorted(fields.items()):
         family = [c for c in classes if p.is_subclass(c, cq) or p.is_subclass(cq, c)]
         # methods whose call leads to the recording site (the consumer itself and its direct callers in the family)
         cons = {c.qualname for c in consumers}
-        for q in list(cons):
+        for q in [q for q in cons if q.rpartition(".")[2] != "run"]:
             cons.update(cf.qualname for cf, _ in p.callers(q) if cf.cls is not None and cf.cls.qualname in family and cf.name != "run")
         fresh = 0
         for c in sorted(family):
@@ -751,7 +762,6 @@ def r7(ctx):
                     if not ctors:
                         continue
                     fresh += 1
-                    total += 1
                     g = F.cfg
                     where = F.qualname.split(".", 2)[-1]
                     aliases = {x for x in (tgt, val.id if is_name(val) else None) if x}
@@ -775,7 +785,7 @@ def r7(ctx):
                            witness=g.describe(bad) if bad else [])
         ctx.ob("R7", f"{cq.rpartition('.')[2]}.{field}: stores of fresh tokens enumerated ({fresh})", True, func=consumers[0], node=consumers[0].node,
                instance=f"fresh-enum:{cq}:{field}", trivial=True)
-    ctx.require(total >= 1, "C07.R7: no store of a freshly constructed token into a recorded step field found (GatherStep.run forced gather)")
+    # floor: the forced gather of GatherStep.run (1 fresh store) + one enumeration record per recorded field (3)
 
 
 # --------------------------------------------------------------------------- R8
@@ -916,6 +926,16 @@ _PROV_BLOCK = (
     "        await self.workflow.context.database.add_provenance(inputs=input_token_ids, token=token.persistent_id)\n"
 )
 
+_TR_GROUP = (
+    "inputs = inputs_map.pop(tag)\n"
+    "                        if check_iteration_termination(inputs.values()):\n"
+    "                            for port_name, token in inputs.items():\n"
+    "                                self.get_output_port(port_name).put(await self._persist_token(token=token.update(token.value), "
+    "port=self.get_output_port(port_name), input_token_ids=get_entity_ids(inputs.values())))\n"
+    "                        else:\n"
+    "                            for port_name, token in (await self.transform(inputs)).items():\n"
+)
+
 VARIANTS = [
     # ---- R1
     V("put of a freshly built Token without _persist_token", SFILE, f"{STEPM}.ScatterStep._scatter",
@@ -968,7 +988,53 @@ VARIANTS = [
     V("provenance dropped at one emission site", SFILE, f"{STEPM}.GatherStep._gather",
       "input_token_ids=get_entity_ids([self.size_map[key], *self.token_map[key]])", "input_token_ids=[]", "R5"),
     V("empty provenance on the branch with inputs", SFILE, f"{STEPM}.DeployStep.run", "input_token_ids=get_entity_ids(inputs.values())", "input_token_ids=[]", "R5"),
+    V("empty provenance although the (renamed) ports local is non-empty", SFILE, f"{STEPM}.Transformer.run",
+      "input_token_ids=get_entity_ids(inputs.values())))\n        else:", "input_token_ids=[]))\n        else:", "R5"),
+    # ---- R6
+    V("partial rename: transformer outputs linked to the last batch instead of the completed tag group", SFILE, f"{STEPM}.Transformer.run",
+      _TR_GROUP, _TR_GROUP.replace("inputs", "tag_inputs").replace("tag_inputs_map", "inputs_map"), "R6", control=True),
+    V("conditional step evaluates and forwards the raw batch", SFILE, f"{STEPM}.ConditionalStep.run",
+      "inputs = inputs_map.pop(tag)", "group = inputs_map.pop(tag)", "R6"),
+    V("job built from the raw batch (popped group discarded)", SFILE, f"{STEPM}.ScheduleStep.run",
+      "inputs = inputs_map.pop(tag)", "inputs_map.pop(tag)", "R6"),
+    V("transfer step records the batch next to the job token", SFILE, f"{STEPM}.TransferStep.run",
+      "inputs = inputs_map.pop(tag)\n                        for port_name, token in inputs.items():\n                            await self._run_transfer(job=job, inputs=inputs,",
+      "group = inputs_map.pop(tag)\n                        for port_name, token in group.items():\n                            await self._run_transfer(job=job, inputs=inputs,", "R6"),
+    # ---- R7
+    V("forced gather emits before the synthesised size token is saved", SFILE, f"{STEPM}.GatherStep.run",
+      "            await self.size_map[key].save(self.workflow.context.database, size_port.persistent_id)\n            await self._gather(key)",
+      "            await self._gather(key)\n            await self.size_map[key].save(self.workflow.context.database, size_port.persistent_id)", "R7"),
+    V("synthesised size token never saved", SFILE, f"{STEPM}.GatherStep.run",
+      "            await self.size_map[key].save(self.workflow.context.database, size_port.persistent_id)\n", "", "R7"),
+    V("save of the synthesised size token not awaited", SFILE, f"{STEPM}.GatherStep.run",
+      "await self.size_map[key].save(self.workflow.context.database, size_port.persistent_id)",
+      "asyncio.create_task(self.size_map[key].save(self.workflow.context.database, size_port.persistent_id))", "R7"),
+    # ---- R8
+    V("list merge links the merged token to its first source only", CWLCFILE, "streamflow.cwl.combinator.ListMergeCombinator.combine",
+      "input_token_ids = [id for name in self.input_names for id in schema[name]['input_ids']]", "input_token_ids = schema[self.input_names[0]]['input_ids']", "R8"),
+    V("loop termination token without the ids of the schema it closes", CFILE, "streamflow.workflow.combinator.LoopTerminationCombinator._product",
+      "'input_ids': [id for t in schema.values() for id in t['input_ids']]", "'input_ids': []", "R8"),
+    V("dot product entry drops the id of its element", CFILE, "streamflow.workflow.combinator.DotProductCombinator._product",
+      "'input_ids': [element.persistent_id]", "'input_ids': []", "R8"),
+    V("cartesian entry takes the ids of another token of the schema", CFILE, "streamflow.workflow.combinator.CartesianProductCombinator._product",
+      "'input_ids': [t.persistent_id]} for k, t in schema.items()", "'input_ids': [next(iter(schema.values())).persistent_id]} for k, t in schema.items()", "R8"),
     # ---- benign
+    V("ports of the transformer selected into differently named locals (R5 finds the branch test by what it evaluates)", SFILE,
+      f"{STEPM}.Transformer.run", "if (input_ports := self._filter_input_ports()):",
+      "selected = self._filter_input_ports()\n        input_ports = selected\n        if selected:", None),
+    V("grouping map renamed", SFILE, f"{STEPM}.ConditionalStep.run", "inputs_map", "groups", None, count=5),
+    V("group through a temporary", SFILE, f"{STEPM}.Transformer.run",
+      "inputs = inputs_map.pop(tag)", "group = inputs_map.pop(tag)\n                        inputs = group", None),
+    V("logging the batch inside the group region is not processing", SFILE, f"{STEPM}.ScheduleStep.run",
+      "inputs = inputs_map.pop(tag)", "logger.debug(f'batch {inputs}')\n                        inputs = inputs_map.pop(tag)", None),
+    V("size token built and saved through a local before it is stored", SFILE, f"{STEPM}.GatherStep.run",
+      "            self.size_map[key] = Token(value=len(self.token_map[key]), tag=key, recoverable=True)\n            await self.size_map[key].save(self.workflow.context.database, size_port.persistent_id)\n",
+      "            size_token = Token(value=len(self.token_map[key]), tag=key, recoverable=True)\n            await size_token.save(self.workflow.context.database, size_port.persistent_id)\n            self.size_map[key] = size_token\n", None),
+    V("list merge collects the ids of every source on both branches", CWLCFILE, "streamflow.cwl.combinator.ListMergeCombinator.combine",
+      "input_token_ids = schema[self.input_names[0]]['input_ids']", "input_token_ids = [i for n in self.input_names for i in schema[n]['input_ids']]", None),
+    V("ids of a loop-termination entry collected into a local first", CFILE, "streamflow.workflow.combinator.LoopTerminationCombinator._product",
+      "        yield {k: {'token': IterationTerminationToken(tag=tag), 'input_ids': [id for t in schema.values() for id in t['input_ids']]} for k in self.output_items}",
+      "        ids = [i for _, e in schema.items() for i in e['input_ids']]\n        yield {k: {'token': IterationTerminationToken(tag=tag), 'input_ids': ids} for k in self.output_items}", None),
     V("compute ids into a local first", SFILE, f"{STEPM}.ExecuteStep._retrieve_output",
       "        output_port.put(await self._persist_token(token=token, port=output_port, input_token_ids=get_entity_ids((*job.inputs.values(), job_token))))",
       "        ids = get_entity_ids((*job.inputs.values(), job_token))\n        persisted = await self._persist_token(token=token, port=output_port, input_token_ids=ids)\n        output_port.put(persisted)", None),
